@@ -188,6 +188,7 @@ func main() {
 
 	gridIngest(e.add)
 	pairsIngest(e.add)
+	encodingSequences(e.add, o.Thorough())
 	metaOptsIngest(e.add)
 	longFamilies(e.add)
 	extremesIngest(e.add)
@@ -255,9 +256,6 @@ func main() {
 		n := g.mutatedNoti()
 		if n == nil {
 			continue
-		}
-		for i := range n.Upd {
-			n.Upd[i].Dep = nil
 		}
 		kept++
 		ops := append(setupSteps(), Op{K: "msg", N: n})
